@@ -527,7 +527,31 @@ func run(c *Case) error {
 			return fmt.Errorf("after the %s create a Topen of the fid answers %s %q", outcome(cancelled, effect), ref9p.TypeName(r.Type), r.Ename)
 		}
 	}
+	// a request that did not take effect left nothing behind: the fid number it
+	// would have bound is free again
+	if !effect {
+		var rb *ref9p.Msg
+		switch c.Target {
+		case "walk":
+			rb = &ref9p.Msg{Type: ref9p.Twalk, Fid: 0, Newfid: 101, Wname: []string{"d101"}}
+		case "attach", "auth":
+			rb = &ref9p.Msg{Type: ref9p.Twalk, Fid: 0, Newfid: 100, Wname: []string{"d100"}}
+		}
+		if rb != nil {
+			r, err := cl.RPC(rb)
+			if err != nil {
+				return fmt.Errorf("probe: %v", err)
+			}
+			if r.Type != ref9p.Rwalk {
+				return fmt.Errorf("after the %s %s a Twalk to the fid number it would have bound is answered %s %q", outcome(cancelled, effect), c.Target, ref9p.TypeName(r.Type), r.Ename)
+			}
+			if r, err := cl.Clunk(rb.Newfid); err != nil || r.Type != ref9p.Rclunk {
+				return fmt.Errorf("probe: clunk of the re-bound number: %v %+v", err, r)
+			}
+		}
+	}
 	// leaked references: a clunk of the target's fid must really invalidate it
+	// and its destruction must be reported
 	if c.Target != "clunk" && c.Target != "remove" && !(c.Target == "attach" && !effect) {
 		if u, _ := isUnknown(100); !u {
 			r, err := cl.Clunk(100)
@@ -541,6 +565,31 @@ func run(c *Case) error {
 				}
 				if !u {
 					return fmt.Errorf("after the %s %s, fid 100 survives a successful Tclunk (leaked reference)", outcome(cancelled, effect), c.Target)
+				}
+				// the object the implementation saw as fid 100 is gone for good
+				inc := 0
+				for _, e := range S.Log() {
+					if e.Kind == "enter" && e.Fid == 100 && e.Conn == script.ConnID("c07") && e.Op == "Clunk" {
+						inc = e.Inc
+					}
+				}
+				if inc != 0 {
+					t0 := time.Now()
+					for {
+						n := 0
+						for _, e := range S.Log() {
+							if e.Kind == "fiddestroy" && e.Inc == inc {
+								n++
+							}
+						}
+						if n == 1 {
+							break
+						}
+						if n > 1 || time.Since(t0) > 3*time.Second {
+							return fmt.Errorf("after the %s %s, fid 100 was clunked at quiescence and its destruction was reported %d times (a reference leaked or was dropped twice)", outcome(cancelled, effect), c.Target, n)
+						}
+						time.Sleep(200 * time.Microsecond)
+					}
 				}
 			}
 		}
@@ -643,6 +692,45 @@ func TestEnumOrderings(t *testing.T) {
 	hx.Exhaustive(fmt.Sprintf("pairwise ordering table: %d target types x 9 target points x 7 flusher points x 2 directions", len(targets)))
 }
 
+// TestEnumTwoFlushers: the target is held at each of its points until the
+// SECOND of two flushers has reached each of its points, the second flusher
+// starting only after the first has decided (three parties, two constraints).
+func TestEnumTwoFlushers(t *testing.T) {
+	targets := []string{"read", "clunk", "walk"}
+	idx := 0
+	for _, tk := range targets {
+		tm, _, _ := build(tk, 100)
+		tm.Tag = 7
+		tkey := script.Key(ref9p.Canon(tm, true))
+		for _, tp := range tpoints {
+			for _, fp1 := range []string{"flush.linked", "flush.decided", "respond.queued"} {
+				for _, fp2 := range fpoints[2:] {
+					idx++
+					if hx.NShards > 1 && idx%hx.NShards != hx.Shard {
+						continue
+					}
+					if !hx.Thorough() && idx%4 != int(hx.Seed%4) {
+						continue
+					}
+					hs := []sched.Hold{
+						{Who: "Tflush/7/21", At: "flush.enter", UntilWho: "Tflush/7/20", UntilPoint: fp1},
+						{Who: tkey, At: tp, UntilWho: "Tflush/7/21", UntilPoint: fp2},
+					}
+					c := &Case{Dotu: true, FlushMode: []int{script.FlushAbsent, script.FlushCancel, script.FlushIgnore}[idx%3], Maxpend: []int{0, 4}[idx%2],
+						Warm: []string{tk, "read"}, Target: tk, Stage: "same-chunk", NFlush: 2, Holds: hs}
+					if err := execute("twoflushers", c); err != nil {
+						hx.Violation("twoflushers", c, err.Error())
+						t.Fatalf("%+v: %v", hs, err)
+					}
+				}
+			}
+		}
+	}
+	if hx.Thorough() {
+		hx.Exhaustive("two flushers: 3 target types x 9 target points x 3 first-flusher points x 5 second-flusher points")
+	}
+}
+
 func TestPropStages(t *testing.T) {
 	hx.Check(t, "stages", hx.N(400, 4000), func(t *rapid.T) {
 		c := &Case{Dotu: rapid.Bool().Draw(t, "dotu"), FlushMode: rapid.IntRange(0, 2).Draw(t, "flushmode"), Maxpend: rapid.SampledFrom([]int{0, 4}).Draw(t, "maxpend")}
@@ -650,7 +738,7 @@ func TestPropStages(t *testing.T) {
 		c.TErr = rapid.IntRange(0, 4).Draw(t, "terr") == 0
 		c.Stage = rapid.SampledFrom([]string{"same-chunk", "same-chunk", "queued", "queued", "held", "held", "answered", "unknown", "flush-of-flush", "multi"}).Draw(t, "stage")
 		c.NFlush = 1
-		if c.Stage == "multi" || rapid.IntRange(0, 5).Draw(t, "morefl") == 0 {
+		if c.Stage == "multi" || rapid.IntRange(0, 2).Draw(t, "morefl") == 0 {
 			c.NFlush = rapid.IntRange(2, 3).Draw(t, "nflush")
 		}
 		if c.Stage == "flush-of-flush" {
@@ -679,11 +767,17 @@ func TestPropStages(t *testing.T) {
 			for i := 0; i < nh; i++ {
 				tp := rapid.SampledFrom(tpoints).Draw(t, "tp")
 				fp := rapid.SampledFrom(fpoints).Draw(t, "fp")
+				fk := fmt.Sprintf("Tflush/7/%d", 20+rapid.IntRange(0, c.NFlush-1).Draw(t, "whichflush"))
 				if rapid.Bool().Draw(t, "dir") {
-					c.Holds = append(c.Holds, sched.Hold{Who: tkey, At: tp, UntilWho: "Tflush/7/20", UntilPoint: fp})
+					c.Holds = append(c.Holds, sched.Hold{Who: tkey, At: tp, UntilWho: fk, UntilPoint: fp})
 				} else {
-					c.Holds = append(c.Holds, sched.Hold{Who: "Tflush/7/20", At: fp, UntilWho: tkey, UntilPoint: tp})
+					c.Holds = append(c.Holds, sched.Hold{Who: fk, At: fp, UntilWho: tkey, UntilPoint: tp})
 				}
+			}
+			if c.NFlush >= 2 && rapid.Bool().Draw(t, "orderflushes") {
+				// the second flusher starts only when the first has got this far
+				fp := rapid.SampledFrom(fpoints[2:]).Draw(t, "fp1")
+				c.Holds = append(c.Holds, sched.Hold{Who: "Tflush/7/21", At: "flush.enter", UntilWho: "Tflush/7/20", UntilPoint: fp})
 			}
 		}
 		if err := execute("stages", c); err != nil {
